@@ -6,25 +6,25 @@
    reaction line per supported node, with every number equal to the computed value at the
    printed precision, is decided on every run by an independent parser of the written text
    (the template is exercised, not modelled). *)
-From Coq Require Import ZArith QArith Qabs List Bool Arith.
+From Coq Require Import ZArith QArith Qabs List Bool Arith String.
 From Inkfem Require Import Num.NumOps Gen.GenRecover Model.Types Model.Slice Model.Dof Model.Assemble Model.Recover
-  Proofs.RecoverProofs Proofs.ReactionProofs Proofs.SeriesProofs.
+  Proofs.RecoverProofs Proofs.ReactionProofs Proofs.SeriesProofs Model.Template Gen.GenTemplates Proofs.TemplateProofs.
 Import ListNotations.
 
 (* each of the four diagram series of a bar with n slice nodes lists between n and 2n - 2 values *)
 Theorem C11_diagram_sizes : forall (eps : Q) (p : pbar Q) (u : list Q),
-  length (pb_nodes p) = length (pb_dofs p) -> (2 <= length (pb_nodes p))%nat ->
-  let n := length (pb_nodes p) in
+  List.length (pb_nodes p) = List.length (pb_dofs p) -> (2 <= List.length (pb_nodes p))%nat ->
+  let n := List.length (pb_nodes p) in
   let s := compute_stresses eps p u in
-  (n <= length (s_ax s) <= 2 * n - 2 /\ n <= length (s_sh s) <= 2 * n - 2 /\
-   n <= length (s_bm s) <= 2 * n - 2 /\ n <= length (s_tf s) <= 2 * n - 2)%nat.
+  (n <= List.length (s_ax s) <= 2 * n - 2 /\ n <= List.length (s_sh s) <= 2 * n - 2 /\
+   n <= List.length (s_bm s) <= 2 * n - 2 /\ n <= List.length (s_tf s) <= 2 * n - 2)%nat.
 Proof. exact diagram_sizes. Qed.
 Print Assumptions C11_diagram_sizes.
 
 (* one displacement triple per slice node, global and local, at the nodes' own positions *)
 Theorem C11_displacement_series : forall (p : pbar Q) (u : list Q),
-  length (pb_nodes p) = length (pb_dofs p) ->
-  length (displ_global p u) = length (pb_nodes p) /\ length (displ_local p u) = length (pb_nodes p) /\
+  List.length (pb_nodes p) = List.length (pb_dofs p) ->
+  List.length (displ_global p u) = List.length (pb_nodes p) /\ List.length (displ_local p u) = List.length (pb_nodes p) /\
   map fst (displ_global p u) = map (@pn_t Q) (pb_nodes p) /\ map fst (displ_local p u) = map (@pn_t Q) (pb_nodes p).
 Proof. exact displacement_series. Qed.
 Print Assumptions C11_displacement_series.
@@ -35,3 +35,22 @@ Theorem C11_reaction_lines : forall (eps : Q) (bars : list (pbar Q)) (u : list Q
   (exists l, In (n, l) nodes /\ is_constrained l = true) /\ r = reaction_at eps bars u n.
 Proof. exact node_reactions_keys. Qed.
 Print Assumptions C11_reaction_lines.
+
+(* THE FILE.  io/sol/solution.template.txt, as parsed by text/template/parse and regenerated into
+   Gen/GenTemplates.v on every run, rendered by the model of text/template (Model/Template.v, tied to
+   Go's own output by correspondence stage G) over ANY solution - any number of reactions, bars and
+   series entries, every number already printed - is exactly the documented layout: the version
+   header, |reactions| with one line per reaction entry, |bars| with one block per bar holding its
+   definition line and the ten tags __gdx__ __gdy__ __grz__ __ldx__ __ldy__ __lrz__ __axial__
+   __shear__ __bend__ __bend_axial_stress__ in this order, each followed by one line per entry of
+   its series.  spec_solution (Proofs/TemplateProofs.v) writes that layout out independently of the
+   template; it is also evaluated against the text Go wrote (stage G). *)
+Theorem C11_solution_file_is_the_documented_layout : forall d : sol_doc,
+  render tmpl_solution (sol_ctx d) = spec_solution d.
+Proof. exact solution_template_renders_the_documented_layout. Qed.
+Print Assumptions C11_solution_file_is_the_documented_layout.
+
+Theorem C11_solution_file_starts_with_the_version : forall d : sol_doc,
+  exists rest, render tmpl_solution (sol_ctx d) = ("inkfem v" ++ sd_major d ++ "." ++ sd_minor d ++ nl ++ rest)%string.
+Proof. exact solution_text_starts_with_version. Qed.
+Print Assumptions C11_solution_file_starts_with_the_version.
